@@ -21,6 +21,7 @@ TABLE = [
     ("C03", r"rk4_R", r"span\.|support", ["rk4_overshoot"]),
     ("C03", r".*_R", r"span\.|hinit|support", ["span_hinit_probe", "rk4_overshoot"]),
     ("C11", r".*_R", r"step\.|hinit", ["step_bounds"]),
+    ("C11", r".*", r".*", ["step_bounds", "first_step_reaches_xend"]),
     ("C07", r"bdf", r".*", ["bdf_interpolant_history", "dense_midstep_order"]),
     ("C06", r"bdf", r"newton|back_value|factor", ["bdf_interpolant_history"]),
     ("C07", r".*", r".*", ["dense_midstep_order"]),
